@@ -54,7 +54,7 @@ type Engine struct {
 type intrinsicFn func(fr *frame, st *State, fn *ssa.Function, args []Val, pos token.Pos) Val
 
 func NewEngine(repo, mirror string) *Engine {
-	return &Engine{RepoDir: repo, MirrorDir: mirror,
+	e := &Engine{RepoDir: repo, MirrorDir: mirror,
 		Contracts: map[*ssa.Function]*BoundContract{}, ByKey: map[string]*BoundContract{}, Externs: map[string]*BoundContract{},
 		specFuncs: map[*types.Func]*specFunc{}, GenText: map[string]string{}, MirrorUsed: map[string]string{},
 		fieldIDs: map[*types.Var]int{}, fieldName: map[int]string{}, typeIDs: map[string]int{}, typeByID: map[int]types.Type{},
@@ -62,6 +62,8 @@ func NewEngine(repo, mirror string) *Engine {
 		loopInfos: map[*ssa.Function]*loopInfo{}, regAllocs: map[*ssa.Function]map[*ssa.Alloc]bool{},
 		fileByName: map[string]*ast.File{}, intrinsics: map[string]intrinsicFn{}, roGlobals: map[string]bool{},
 		AllPkgs: map[string]*packages.Package{}}
+	e.registerIntrinsics()
+	return e
 }
 
 // Load parses contract files of the given package directories (relative to the repo), generates the
@@ -207,7 +209,7 @@ func (e *Engine) bind() error {
 				return fmt.Errorf("%s:%d: generated function %s missing", fc.File, fc.Line, fc.GenName)
 			}
 			bc := &BoundContract{FC: fc, Pkg: pkg, Decl: fd, Locals: map[*types.Var]string{}, Inv: map[int][]ClauseExpr{},
-				Dec: map[int]ClauseExpr{}, LoopMod: map[int][]ast.Expr{}, Unroll: map[int]int{}, HasLoop: map[int]bool{},
+				Dec: map[int]ClauseExpr{}, LoopMod: map[int][]ast.Expr{}, LoopSplit: map[int][]ast.Expr{}, Unroll: map[int]int{}, HasLoop: map[int]bool{},
 				FreshResult: map[int]bool{}, Known: map[string]string{}}
 			obj := pkg.TypesInfo.Defs[fd.Name].(*types.Func)
 			bc.Sig = obj.Type().(*types.Signature)
@@ -232,7 +234,7 @@ func (e *Engine) bind() error {
 				if err != nil {
 					return err
 				}
-				e.Externs[key] = bc
+				e.Externs[pkg.PkgPath+"|"+key] = bc
 				continue
 			}
 			// target function
@@ -369,7 +371,7 @@ func (e *Engine) bindClauses(bc *BoundContract) error {
 	for i := range fc.Clauses {
 		cl := &fc.Clauses[i]
 		switch cl.Kind {
-		case "requires", "ensures", "invariant", "decreases", "modifies", "fresh", "assert":
+		case "requires", "ensures", "invariant", "decreases", "modifies", "fresh", "assert", "split":
 			if ci >= len(calls) {
 				return fmt.Errorf("%s:%d: clause/statement mismatch", fc.File, cl.Line)
 			}
@@ -380,6 +382,15 @@ func (e *Engine) bindClauses(bc *BoundContract) error {
 				bc.Requires = append(bc.Requires, ClauseExpr{call.Args[0], cl, bc})
 			case "ensures":
 				bc.Ensures = append(bc.Ensures, ClauseExpr{call.Args[0], cl, bc})
+			case "assert":
+				bc.Asserts = append(bc.Asserts, ClauseExpr{call.Args[0], cl, bc})
+			case "split":
+				if cl.Loop >= 0 {
+					bc.LoopSplit[cl.Loop] = append(bc.LoopSplit[cl.Loop], call.Args[1:]...)
+					bc.HasLoop[cl.Loop] = true
+				} else {
+					bc.Split = append(bc.Split, call.Args[1:]...)
+				}
 			case "invariant":
 				bc.Inv[cl.Loop] = append(bc.Inv[cl.Loop], ClauseExpr{call.Args[1], cl, bc})
 				bc.HasLoop[cl.Loop] = true
@@ -446,9 +457,15 @@ func (e *Engine) bindClauses(bc *BoundContract) error {
 
 func (e *Engine) contractFor(fn *ssa.Function) *BoundContract { return e.Contracts[fn] }
 
-func (e *Engine) externFor(key string, obj types.Object) *BoundContract {
-	if bc, ok := e.Externs[key]; ok {
-		return bc
+// externFor: assumed contracts are scoped to the package whose contract file declares them.
+func (e *Engine) externFor(caller *ssa.Function, key string) *BoundContract {
+	for f := caller; f != nil; f = f.Parent() {
+		if f.Pkg != nil {
+			if bc, ok := e.Externs[f.Pkg.Pkg.Path()+"|"+key]; ok {
+				return bc
+			}
+			break
+		}
 	}
 	return nil
 }
